@@ -760,11 +760,12 @@ func SpecContains(s string, sub string) bool { return false }
 //@   set emitted = emitted + len(unit.Commands) at call emitUnit
 //@   set bookkeeping = bookkeeping + ite(result, 1, 0) after call isBisyncControlCommand
 //@   set bookkeeping = bookkeeping + ite(result, len(cmds), 0) after call isBisyncMirroredTransaction
-//@   replay syncer_filterStripsMarker
+//@   replay syncer_filterStripsMarker syncer_bisyncWrongDatabase
 //@   assert at call filterCounterAdd: the_tools_own_bookkeeping_is_never_withheld_by_the_output_filters: !(len(argv) > 0 && SpecNsKey(string(argv[0])))
 //@   loop 1:
 //@     invariant decoder: decoder != nil && decoder.r != nil && decoder.offset >= 0
 //@     invariant every_accepted_command_is_emitted_or_bookkeeping: accepted == emitted + bookkeeping + ite(inTxn, len(txnCommands), 0)
+//@     invariant units_are_built_only_for_the_database_the_senders_write_to: currentDB == 0 - 1 || currentDB == 0
 
 // ---- source (re)connection: continue exactly, or take a snapshot (C06) --------------------
 //@ func redis.StandaloneRedis.SendPSyncListeningPort(self, port) (err)
